@@ -312,6 +312,7 @@ struct Rewriter<'a> {
     synth: Vec<(String, String)>,
     intoiter_params: Vec<String>,
     fmt_helpers: Vec<(String, String)>,
+    pinned: Vec<String>,
 }
 
 fn line_of<T: syn::spanned::Spanned>(t: &T) -> usize {
@@ -424,6 +425,89 @@ impl<'a> Rewriter<'a> {
                 self.fmt_helpers.push((hname.clone(), helper));
                 self.logr("R3", line, format!("format!({:?}, ..{} args) -> {}", lit, n, fname));
                 Some(parse_quote!(#fname(#(&#call_args),*)))
+            }
+            "select" => {
+                // R8: select! { p1 = f1 => b1, p2 = f2 => b2, .. } -> match vx_selectN(..).await { A(p1) => b1, .. }
+                // futures named by a plain identifier are polled through `&mut` (they stay usable, as in select!)
+                let toks: Vec<TokenTree> = m.tokens.clone().into_iter().collect();
+                let mut arms: Vec<(TokenStream, TokenStream, TokenStream)> = vec![];
+                let mut i = 0usize;
+                let n = toks.len();
+                while i < n {
+                    // pattern: up to a lone `=`
+                    let mut pat = TokenStream::new();
+                    while i < n {
+                        if let TokenTree::Punct(p) = &toks[i] {
+                            if p.as_char() == '=' && p.spacing() == proc_macro2::Spacing::Alone {
+                                break;
+                            }
+                        }
+                        pat.extend(std::iter::once(toks[i].clone()));
+                        i += 1;
+                    }
+                    if i >= n { break; }
+                    i += 1; // '='
+                    // future expr: up to `=>`
+                    let mut fut = TokenStream::new();
+                    while i + 1 < n {
+                        if let (TokenTree::Punct(p), TokenTree::Punct(q)) = (&toks[i], &toks[i + 1]) {
+                            if p.as_char() == '=' && p.spacing() == proc_macro2::Spacing::Joint && q.as_char() == '>' {
+                                break;
+                            }
+                        }
+                        fut.extend(std::iter::once(toks[i].clone()));
+                        i += 1;
+                    }
+                    i += 2; // '=>'
+                    // body: a brace group (optional comma) or tokens up to a top-level comma
+                    let mut body = TokenStream::new();
+                    if i < n {
+                        if let TokenTree::Group(g) = &toks[i] {
+                            if g.delimiter() == proc_macro2::Delimiter::Brace {
+                                body.extend(std::iter::once(toks[i].clone()));
+                                i += 1;
+                                if i < n { if let TokenTree::Punct(p) = &toks[i] { if p.as_char() == ',' { i += 1; } } }
+                                arms.push((pat, fut, body));
+                                continue;
+                            }
+                        }
+                    }
+                    while i < n {
+                        if let TokenTree::Punct(p) = &toks[i] { if p.as_char() == ',' { i += 1; break; } }
+                        body.extend(std::iter::once(toks[i].clone()));
+                        i += 1;
+                    }
+                    arms.push((pat, fut, body));
+                }
+                if arms.len() < 2 || arms.len() > 3 {
+                    self.errors.push(format!("unsupported-construct: select! with {} arms at line {}", arms.len(), line));
+                    return None;
+                }
+                let names = ["A", "B", "C"];
+                let en = syn::Ident::new(&format!("VxSel{}", arms.len()), proc_macro2::Span::call_site());
+                let fnn = syn::Ident::new(&format!("vx_select{}", arms.len()), proc_macro2::Span::call_site());
+                let mut args: Vec<Expr> = vec![];
+                let mut match_arms: Vec<TokenStream> = vec![];
+                for (k, (pat, fut, body)) in arms.iter().enumerate() {
+                    let fe: Expr = match syn::parse2(fut.clone()) {
+                        Ok(e) => e,
+                        Err(e) => { self.errors.push(format!("unsupported-construct: select! future at line {}: {}", line, e)); return None; }
+                    };
+                    let is_ident = matches!(&fe, Expr::Path(p) if p.path.get_ident().is_some());
+                    args.push(if is_ident { parse_quote!(vx_by_ref(&mut #fe)) } else { fe });
+                    let v = syn::Ident::new(names[k], proc_macro2::Span::call_site());
+                    match_arms.push(quote!(#en::#v(#pat) => #body));
+                }
+                let src = quote!(match #fnn(#(#args),*).await { #(#match_arms),* });
+                match syn::parse2::<Expr>(src) {
+                    Ok(mut e) => {
+                        self.logr("R8", line, format!("select! with {} arms -> match vx_select{}(..).await", arms.len(), arms.len()));
+                        // the arm bodies are real code: rewrite them too
+                        self.visit_expr_mut(&mut e);
+                        Some(e)
+                    }
+                    Err(e) => { self.errors.push(format!("unsupported-construct: select! rewrite at line {}: {}", line, e)); None }
+                }
             }
             "anyhow" => {
                 self.logr("R4", line, "anyhow!(..) -> vx_anyhow()");
@@ -591,6 +675,31 @@ impl<'a> VisitMut for Rewriter<'a> {
                 }
             }
         }
+        // R9: `pin_mut!(x)` -> removed; the binding becomes `let mut x` so that `x.set(v)` can be `x = v`
+        {
+            let mut pinned_here: Vec<String> = vec![];
+            for st in b.stmts.iter() {
+                if let Stmt::Macro(sm) = st {
+                    if Rewriter::macro_name(&sm.mac) == "pin_mut" {
+                        if let Ok(id) = syn::parse2::<syn::Ident>(sm.mac.tokens.clone()) {
+                            pinned_here.push(id.to_string());
+                        }
+                    }
+                }
+            }
+            for name in &pinned_here {
+                for st in b.stmts.iter_mut() {
+                    if let Stmt::Local(l) = st {
+                        if let syn::Pat::Ident(pi) = &mut l.pat {
+                            if pi.ident == name && pi.mutability.is_none() {
+                                pi.mutability = Some(Default::default());
+                            }
+                        }
+                    }
+                }
+                self.pinned.push(name.clone());
+            }
+        }
         // recurse first so that hints bind to the innermost matching statement
         visit_mut::visit_block_mut(self, b);
         // R2: drop tracing statements
@@ -756,6 +865,14 @@ impl<'a> VisitMut for Rewriter<'a> {
                     c.body = Box::new(nb);
                     self.logr("R27", line, "destructuring closure parameter -> plain parameter + let");
                 }
+            }
+            Expr::MethodCall(mc) if mc.method == "set" && mc.args.len() == 1
+                && matches!(&*mc.receiver, Expr::Path(p) if p.path.get_ident().map_or(false, |i| self.pinned.contains(&i.to_string()))) =>
+            {
+                let recv = mc.receiver.clone();
+                let v = mc.args.first().unwrap().clone();
+                self.logr("R9", line, "Pin::set on a pin_mut! binding -> assignment");
+                *e = parse_quote!(#recv = #v);
             }
             Expr::MethodCall(mc) => {
                 // R23: `Enum::Variant` passed as a function value -> the closure it denotes
@@ -1155,6 +1272,7 @@ fn process_fn(
             synth: vec![],
             intoiter_params: vec![],
             fmt_helpers: vec![],
+            pinned: vec![],
         };
         let _ = (&rw.fn_marker, rw.brk_counter);
         rw.intoiter_params = intoiter_params.clone();
@@ -1181,6 +1299,25 @@ fn process_fn(
         let mut lv = LoopValueRewriter { log: vec![], n: 0, uid: uid.to_string() };
         lv.visit_block_mut(block);
         out.rewrites.extend(lv.log);
+    }
+    // R29: `mut x: T` parameters -> `x: T` plus `let mut x = x;` (the verifier does not accept `mut` parameters)
+    {
+        let mut rebinds: Vec<Stmt> = vec![];
+        for arg in sig.inputs.iter_mut() {
+            if let syn::FnArg::Typed(pt) = arg {
+                if let syn::Pat::Ident(pi) = &mut *pt.pat {
+                    if pi.mutability.is_some() && pi.by_ref.is_none() {
+                        pi.mutability = None;
+                        let id = pi.ident.clone();
+                        rebinds.push(parse_quote!(let mut #id = #id;));
+                        out.rewrites.push(RewriteLog { rule: "R29".into(), line: line_of(&id), detail: format!("`mut {}` parameter -> rebinding `let mut {} = {};`", id, id, id) });
+                    }
+                }
+            }
+        }
+        for (k, st) in rebinds.into_iter().enumerate() {
+            block.stmts.insert(k, st);
+        }
     }
     // R10
     if spec.self_mut {
@@ -1710,6 +1847,7 @@ fn process_unit(job: &Job, ctx: &Ctx, u: &UnitReq, uidx: usize, vac: bool) -> Un
             synth: vec![],
             intoiter_params: vec![],
             fmt_helpers: vec![],
+            pinned: vec![],
                 };
                 match &mut it {
                     Item::Struct(s) => { rw.visit_fields_mut(&mut s.fields); rw.visit_generics_mut(&mut s.generics); }
@@ -1918,6 +2056,7 @@ fn process_unit(job: &Job, ctx: &Ctx, u: &UnitReq, uidx: usize, vac: bool) -> Un
             synth: vec![],
             intoiter_params: vec![],
             fmt_helpers: vec![],
+            pinned: vec![],
             };
             rw.visit_generics_mut(&mut im.generics);
             rw.visit_type_mut(&mut im.self_ty);
